@@ -214,5 +214,154 @@ def eng6(ctx: Ctx) -> None:
             ctx.R.ok("ENG-6", f"the block under `{norm(b.test)[:50]}` only fills in contexts and records errors")
 
 
-C14 = [trio1, trio2]
-C15 = [grn1, grn2]
+# ----------------------------------------------------------------------------------------------------------------- LOC-1
+def _third_party_def(dotted: List[str]) -> Tuple[Optional[ast.AST], str]:
+    """the FunctionDef that `pkg.a.b.func` names, found by *reading* the installed distribution (PathFinder locates the
+    top-level package without importing it; submodules and `from .x import y as z` re-exports are followed in the source)"""
+    import importlib.machinery
+    import os
+    spec = importlib.machinery.PathFinder.find_spec(dotted[0])
+    if spec is None or not spec.origin or not spec.origin.endswith(".py"):
+        return None, f"distribution {dotted[0]} not found on this interpreter's path"
+    cur = spec.origin
+
+    def parse(path: str) -> Optional[ast.Module]:
+        try:
+            with open(path, encoding="utf-8") as f:
+                return ast.parse(f.read())
+        except (OSError, SyntaxError):
+            return None
+
+    def submodule(base_file: str, name: str, level_up: int = 0) -> Optional[str]:
+        d = os.path.dirname(base_file)
+        for _ in range(level_up):
+            d = os.path.dirname(d)
+        for cand in (os.path.join(d, *name.split(".")) + ".py", os.path.join(d, *name.split("."), "__init__.py")):
+            if os.path.exists(cand):
+                return cand
+        return None
+
+    parts = dotted[1:]
+    i = 0
+    hops = 0
+    while i < len(parts) and hops < 12:
+        hops += 1
+        nm = parts[i]
+        tree = parse(cur)
+        if tree is None:
+            return None, f"cannot read {cur}"
+        found = None
+        for n in tree.body:
+            if isinstance(n, (ast.FunctionDef, ast.AsyncFunctionDef, ast.ClassDef)) and n.name == nm:
+                found = n
+        if found is not None:
+            if i == len(parts) - 1:
+                return (found if isinstance(found, (ast.FunctionDef, ast.AsyncFunctionDef)) else None), cur
+            if isinstance(found, ast.ClassDef):
+                sub = [m for m in found.body if isinstance(m, (ast.FunctionDef, ast.AsyncFunctionDef)) and m.name == parts[i + 1]]
+                return (sub[0] if sub and i + 1 == len(parts) - 1 else None), cur
+            return None, cur
+        moved = False
+        for n in ast.walk(tree):
+            if isinstance(n, ast.ImportFrom):
+                for a in n.names:
+                    if (a.asname or a.name) == nm:
+                        base = os.path.dirname(cur) if os.path.basename(cur) == "__init__.py" else os.path.dirname(cur)
+                        tgt = None
+                        if n.level:
+                            anchor = os.path.join(base, "x.py")
+                            if n.module:
+                                tgt = submodule(anchor, n.module, n.level - 1)
+                                if tgt is not None:
+                                    # the name may itself be a submodule of n.module
+                                    parts[i] = a.name
+                                    cur = tgt
+                                    moved = True
+                            else:
+                                tgt = submodule(anchor, a.name, n.level - 1)
+                                if tgt is not None:
+                                    cur = tgt
+                                    i += 1
+                                    moved = True
+                        break
+                if moved:
+                    break
+        if moved:
+            continue
+        sm = submodule(cur, nm) if os.path.basename(cur) == "__init__.py" else None
+        if sm is not None:
+            cur = sm
+            i += 1
+            continue
+        return None, f"`{nm}` not found in {cur}"
+    return None, "not resolved"
+
+
+def loc1(ctx: Ctx) -> None:
+    """LOC-1 a frame hook registered for a third-party function reads that function's local variables by name
+    (frame.pyframe.f_locals.get("x")).  Where the hook *returns* such a local as the item the stack continues into, and the
+    installed distribution's source has a variable of that name, it is the object the function actually drives (the one it passes to / calls .send() or .throw() on, awaits or yields from) --
+    the raw argument is a different object whenever the function wraps it first"""
+    mod = ctx.P.mod("_glue")
+    n = 0
+    for q, fn in mod.defs.items():
+        if not isinstance(fn, (ast.FunctionDef, ast.AsyncFunctionDef)):
+            continue
+        targets = []
+        for d in fn.decorator_list:
+            if isinstance(d, ast.Call) and isinstance(d.func, ast.Attribute) and d.func.attr == "register" and norm(d.func.value) == "elaborate_frame" and d.args:
+                t = norm(d.args[0])
+                if t.split(".")[0] in ("trio", "greenback") and all(p.isidentifier() for p in t.split(".")):
+                    targets.append(t)
+        if not targets:
+            continue
+        fparam = fn.args.args[0].arg if fn.args.args else None
+        reads = []
+        for c in ast.walk(fn):
+            if isinstance(c, ast.Call) and isinstance(c.func, ast.Attribute) and c.func.attr == "get" and norm(c.func.value) == f"{fparam}.pyframe.f_locals" and c.args \
+                    and isinstance(c.args[0], ast.Constant) and isinstance(c.args[0].value, str):
+                reads.append((c.args[0].value, c))
+            elif isinstance(c, ast.Subscript) and norm(c.value) == f"{fparam}.pyframe.f_locals" and isinstance(c.slice, ast.Constant) and isinstance(c.slice.value, str):
+                reads.append((c.slice.value, c))
+        if not reads:
+            continue
+        for t in targets:
+            tdef, where = _third_party_def(t.split("."))
+            if tdef is None:
+                ctx.R.ok("LOC-1", f"{q}: {t} not compared", where)
+                continue
+            ctx.R.note(f"LOC-1 read {t} from {where}")
+            args = tdef.args
+            names = {a.arg for a in args.posonlyargs + args.args + args.kwonlyargs} | ({args.vararg.arg} if args.vararg else set()) | ({args.kwarg.arg} if args.kwarg else set())
+            for x in walk_scope(tdef):
+                if isinstance(x, ast.Name) and isinstance(x.ctx, ast.Store):
+                    names.add(x.id)
+                elif isinstance(x, (ast.FunctionDef, ast.AsyncFunctionDef, ast.ClassDef)):
+                    names.add(x.name)
+            driven: Set[str] = set()
+            for x in ast.walk(tdef):
+                if isinstance(x, ast.Call) and isinstance(x.func, ast.Attribute) and x.func.attr in ("send", "throw"):
+                    driven |= {a.id for a in x.args if isinstance(a, ast.Name)}
+                    if isinstance(x.func.value, ast.Name):
+                        driven.add(x.func.value.id)
+                elif isinstance(x, (ast.Await, ast.YieldFrom)) and isinstance(x.value, ast.Name):
+                    driven.add(x.value.id)
+            for name, c in reads:
+                n += 1
+                if name not in names:
+                    # the glue supports several releases of the library and tolerates absent names (.get -> None): not a defect
+                    ctx.R.ok("LOC-1", f"{q}: `{name}` is not a variable of {t} in the installed release", "tolerated by the hook (other releases); not compared")
+                    continue
+                p = mod.parent_of(c)
+                if isinstance(p, ast.Return) and driven and name not in driven:
+                    ctx.R.fail("LOC-1", mod, c, f"{q} continues the stack into the local `{name}` of {t}, but the object that function drives is {sorted(driven)} (it calls .send()/.throw() on / with it); "
+                               f"`{name}` is a different object whenever {t.split('.')[-1]} wraps its argument first, and the trace then ends at this frame with the unwrapped argument as a leaf",
+                               construct=f"{q}: continues into {name!r} instead of {sorted(driven)}")
+                else:
+                    ctx.R.ok("LOC-1", f"{q}: `{name}` is a variable of {t}", "driven object" if isinstance(p, ast.Return) and name in driven else where.split("site-packages/")[-1])
+    if n == 0:
+        ctx.R.ok("LOC-1", "no third-party distribution available to compare local names with", "not compared")
+
+
+C14 = [trio1, trio2, loc1]
+C15 = [grn1, grn2, loc1]
